@@ -42,8 +42,19 @@ Inductive prim :=
 | PSetAt (a : list Z) (i : Z) (v : Z) (out : list Z)           (* a[i] = v *)
 | PFindPositions (data xs : list Z) (out : list Z).            (* hardware/util.py::find_positions (qupulse, not numpy) *)
 
+(* round 6: a call of the placement recorded INSIDE a history (the property's observation point): the driver's OWN arrays
+   at the moment of the call, the new segments, what the call returned; pc_feature = the copy in feature_awg/tabor.py *)
+Record pcall := {
+  pc_feature : bool;
+  pc_hashes : list Z; pc_refs : list Z; pc_caps : list Z;
+  pc_new_hashes : list Z; pc_new_lens : list Z;
+  pc_impl : impl_obs
+}.
+
 Inductive case :=
 | CHist (total : Z) (ops : list op) (obs : list hobs)
+(* round 6: a history together with every placement call made inside it *)
+| CHistD (total : Z) (ops : list op) (obs : list hobs) (calls : list pcall)
 | CPlace (hashes refs caps : list Z) (total : Z) (new_hashes new_lens : list Z) (impl : impl_obs)
          (inputs_unchanged : bool)
   (* the copy of the placement in hardware/feature_awg/tabor.py::TaborChannelTuple._find_place_for_segments_in_memory *)
@@ -250,9 +261,23 @@ Definition prim_spec (p : prim) : bool :=
                                end) xs) out
   end.
 
+(* an in-history call against the model of the decision function (the feature copy only on tie-free inputs, as CPlaceF) *)
+Definition pcall_corr (total : Z) (c : pcall) : bool :=
+  if pc_feature c && negb (nodupb (pc_caps c) && nodupb (pc_new_lens c)) then true
+  else place_corr (pc_hashes c) (pc_refs c) (pc_caps c) total (pc_new_hashes c) (pc_new_lens c) (pc_impl c).
+(* ... and against the four clauses, on the driver's own arrays (reference counts of a driver are counts: no guard) *)
+Definition pcall_spec (total : Z) (c : pcall) : bool :=
+  match pc_impl c with
+  | IRet w a i => decision_okb {| m_hashes := pc_hashes c; m_refs := pc_refs c; m_caps := pc_caps c; m_total := total |}
+                               (pc_new_hashes c) (pc_new_lens c) {| d_w2s := w; d_amend := a; d_insert := i |}
+  | IRefuse (Some (AssertionFailed | BadInput)) => false
+  | IRefuse _ => true
+  end.
+
 Definition check_corr (c : case) : bool :=
   match c with
   | CHist total ops obs => hist_corr (xclear total) ops obs
+  | CHistD total ops obs calls => hist_corr (xclear total) ops obs && forallb (pcall_corr total) calls
   | CPlace h r cp t nh nl impl unchanged =>
       unchanged &&   (* the function is pure: the driver's arrays are not modified *)
       place_corr h r cp t nh nl impl
@@ -272,6 +297,10 @@ Definition check_spec (c : case) : bool :=
   | CHist total ops obs =>
       Nat.eqb (length ops) (length obs) && forallb obs_safe obs
       && forallb (fun o => zsum (ho_caps o) <=? total) obs      (* the defined slots fit into the instrument *)
+  | CHistD total ops obs calls =>
+      Nat.eqb (length ops) (length obs) && forallb obs_safe obs
+      && forallb (fun o => zsum (ho_caps o) <=? total) obs
+      && forallb (pcall_spec total) calls                       (* the four clauses on every decision taken inside *)
   | CPrim p => prim_spec p
   | CPlace h r cp t nh nl impl _ | CPlaceF h r cp t nh nl impl _ =>
       match impl with
